@@ -353,6 +353,17 @@ func cmdCheck(args []string, writeLedger bool) {
 	ledgerPath := filepath.Join(root, "ledger", prop+".json")
 	if writeLedger {
 		var lg Ledger
+		// an obligation that was discharged but slowly is timed again on its own: sixteen queries in parallel slow each
+		// other down, and admission should measure the query, not the contention of the ledger run
+		for _, o := range all {
+			want := "unsat"
+			if o.ExpectSat {
+				want = "sat"
+			}
+			if o.Result == want && !o.Known && o.TimeS >= float64(timeout)*0.7 {
+				Discharge(o, scratch, timeout, "")
+			}
+		}
 		for _, o := range all {
 			want := "unsat"
 			if o.ExpectSat {
